@@ -4,6 +4,7 @@ import (
 	"bytes"
 	"fmt"
 	"io"
+	"math"
 	"sort"
 	"strconv"
 	"strings"
@@ -164,7 +165,16 @@ func (s *state) walk(node ast.Node) {
 	case *ast.IntNode:
 		s.js(node.String())
 	case *ast.FloatNode:
-		s.js(node.String())
+		// (an infinite global: +Inf / -Inf as node.String() writes it is not JavaScript)
+		if math.IsInf(node.Value, 0) {
+			if node.Value > 0 {
+				s.js("Infinity")
+			} else {
+				s.js("(-Infinity)")
+			}
+		} else {
+			s.js(node.String())
+		}
 	case *ast.BoolNode:
 		s.js(node.String())
 	case *ast.GlobalNode:
